@@ -16,6 +16,7 @@
 //!   jump <ns>                                set the clock forward by ns in ONE step (one worker wake), then settle
 //!   wake <p>                                 force one worker iteration now (API call on p); reports clock bumps
 //!   now                                      simulated clock
+//!   # <text>                                 comment (props/*.py keep the structured case there); output "#"
 //!   dst <w>                                  destinations (participant:reader) of DATA/HEARTBEAT/GAP sent by writer w since the last dst/sent
 //!   net additionally reports the delivered metatraffic: S<q>><p> SPDP data, X<q>><p> SPDP dispose/unregister,
 //!       E<q>><p> other DATA-carrying metatraffic, U<q>><p> user DATA
@@ -57,7 +58,6 @@ use dust_dds::infrastructure::sample_info::{
 use dust_dds::infrastructure::time::{Duration, DurationKind, Time};
 use dust_dds::infrastructure::type_support::DdsType;
 use dust_dds::rtps_messages::overall_structure::{RtpsMessageRead, RtpsSubmessageReadKind};
-use dust_dds::runtime::DdsRuntime as _;
 use std::collections::HashMap;
 use std::io::{BufRead, Write};
 use vh::sim::{Packet, Sim, SimRuntime, SimTransport};
